@@ -1047,6 +1047,7 @@ func c15(c *Ctx) {
 	// R9 a flush that overlaps a completed Shutdown returns
 	c.Rule("R9", "E3 select arms (shared with C01.R9)", "batchSpanProcessor.ForceFlush: every wait for the flush marker's acknowledgement also has an arm on the processor's stop channel, so a flush issued around a Shutdown returns instead of blocking forever", 1)
 	ruleFlushWaitStops(c, tix, "R9")
+	ruleBspStoppedSync(c, tix, "R9")
 
 	// R5 nil-exporter guards
 	c.Rule("R5", "E3 nil-guard + E4 one-level value flow", "every call through an exporter field that the constructor accepts as nil is dominated by a non-nil test of that value", 8)
